@@ -14,6 +14,9 @@ M=[
 			return errors.New("byte array len less than 0")
 		}
 		ba := make([]byte, aryLen)''','''		ba := make([]byte, aryLen)'''),
+("C03","dynbt_intarray_no_negcheck","nbt/dynbt/decode.go",'''		size := int64(n)*4 + 4
+		if n < 0 || size > math.MaxInt {''','''		size := int64(n)*4 + 4
+		if size > math.MaxInt {'''),
 ("C03","dynbt_string_no_negcheck","nbt/dynbt/decode.go",'''		if n < 0 {
 			return errors.New("string length less than 0")
 		}
@@ -62,10 +65,11 @@ M=[
 ("C07","pack_selects_compression_gt0","net/packet/packet.go",'''func (p *Packet) Pack(w io.Writer, threshold int) error {
 	if threshold >= 0 {''','''func (p *Packet) Pack(w io.Writer, threshold int) error {
 	if threshold > 0 {'''),
-("C08","ary_no_negcheck","net/packet/util.go",'''	if Len < 0 {
-		return n, errors.New("array length less than zero")
+("C08","ary_no_negcheck","net/packet/util.go",'''	if Len < 0 || int64(Len) > math.MaxInt {
+		return n, errors.New("array length out of range")
 	}
-''',''''''),
+''','''	_ = math.MaxInt
+'''),
 ("C08","string_no_negcheck","net/packet/types.go",'''	if l < 0 {
 		return n, errors.New("string length less than zero")
 	}
